@@ -168,7 +168,7 @@ static void resizeSome(V& v, hz::Rng& r, std::string& d, const char* name, std::
   d += std::string(name) + ".size" + (k == -1000000 ? "=0" : (k >= 0 ? "+" : "") + std::to_string(k));
 }
 
-static const int kNumMut = 40;
+static const int kNumMut = 42;
 template <typename M>
 static std::string mutate(M& m, int kind, hz::Rng& r) {
   using I = typename std::remove_reference<decltype(m.triVerts[0])>::type;
@@ -217,7 +217,18 @@ static std::string mutate(M& m, int kind, hz::Rng& r) {
     case 36: { if (m.runIndex.size() >= 2 && m.runIndex.size() == m.runOriginalID.size() + 1) m.runIndex.pop_back(); d = "runIndex-implicit-end(valid)"; break; }
     case 37: { size_t n = m.runIndex.size(); if (n >= 3) { size_t k = 1 + any(n - 2); m.runIndex[k] = (I)(m.runIndex[k] + (r.below(2) ? 3 : -3)); } d = "runIndex-interior+-3"; break; }
     case 38: { m.faceID.clear(); m.halfedgeTangent.clear(); d = "strip-faceID-tangents(valid)"; break; }
-    default: { // 39: wholly random small soup
+    case 39: {  // free-form run table without run IDs: any length, boundary values, the LAST entry right or wrong
+      m.runOriginalID.clear(); m.runTransform.clear(); m.runFlags.clear(); m.runIndex.clear(); const size_t n = 2 + r.below(4);
+      m.runIndex.push_back(r.below(4) ? (I)0 : idxBoundary<I>(r, m.triVerts.size()));
+      for (size_t i = 1; i + 1 < n; i++) m.runIndex.push_back(r.below(3) ? idxBoundary<I>(r, m.triVerts.size()) : (I)(3 * r.below(nT + 2)));
+      m.runIndex.push_back(r.below(4) ? (I)m.triVerts.size() : idxBoundary<I>(r, m.triVerts.size()));
+      d = "runIndex-freeform-noIDs(n=" + std::to_string(n) + ")"; break; }
+    case 40: {  // the same with k run IDs and k+1 .. k+3 indices
+      const size_t k = 1 + r.below(3), n = k + 1 + r.below(3); m.runOriginalID.assign(k, 7); for (size_t i = 0; i < k; i++) m.runOriginalID[i] = (uint32_t)(7 + i); m.runTransform.clear(); m.runFlags.clear(); m.runIndex.clear();
+      m.runIndex.push_back((I)0); for (size_t i = 1; i + 1 < n; i++) m.runIndex.push_back(r.below(3) ? idxBoundary<I>(r, m.triVerts.size()) : (I)(3 * r.below(nT + 2)));
+      m.runIndex.push_back(r.below(4) ? (I)m.triVerts.size() : idxBoundary<I>(r, m.triVerts.size()));
+      d = "runIndex-freeform(k=" + std::to_string(k) + ",n=" + std::to_string(n) + ")"; break; }
+    default: { // wholly random small soup
       size_t nv = 4 + r.below(4), nt = 4 + r.below(5);
       m = M(); m.numProp = 3;
       for (size_t i = 0; i < 3 * nv; i++) m.vertProperties.push_back((P)((double)r.below(7) - 3));
